@@ -211,6 +211,8 @@ def run_legacy(case, seq=None):
         )
         out["emu"] = emu
         out["times"] = np.array(emu._eval_times_array)
+        if case.get("init"):
+            emu.set_initial_state(init_state_of(case, case["init"].get("form", "qobj")))
         seeded(case.get("seed", 0))
         res = emu.run()
         out["results"] = res
@@ -226,9 +228,27 @@ def run_legacy(case, seq=None):
     return out
 
 
+def init_vector(case) -> np.ndarray:
+    return np.array([complex(a, b) for a, b in case["init"]["amps"]])
+
+
+def init_state_of(case, form: str):
+    """the user-supplied initial state in one of the accepted forms: a plain
+    array, an (un-normalised) Qobj, a normalised Qobj"""
+    v = init_vector(case)
+    if form == "array":
+        return v
+    n = case["n"]
+    d = len(expected_eigenbasis(case))
+    q = qutip.Qobj(v.reshape(-1, 1), dims=[[d] * n, [1] * n])
+    return q.unit() if form == "qobj_unit" else q
+
+
 def v2_config_of(case):
     v2 = case.get("v2") or {}
     kw = {}
+    if case.get("init"):
+        kw["initial_state"] = QutipState(init_state_of(case, "qobj"), eigenstates=tuple(expected_eigenbasis(case)))
     default = v2.get("default", None)
     if default is not None:
         kw["default_evaluation_times"] = default if default == "Full" else list(default)
